@@ -119,6 +119,23 @@ func extraReps() []rep {
 		{"connect/other-namespace", txt("0/a,")},
 		{"connect/with-id", txt("01")},
 		{"connect/null-auth", txt("0null")},
+		// auth payloads around the fields connection state recovery reads (seed c10i: a pid without an offset)
+		{"connect/auth-pid-without-offset", txt(`0{"pid":"x"}`)},
+		{"connect/auth-pid-offset-null", txt(`0{"pid":"x","offset":null}`)},
+		{"connect/auth-pid-offset-number", txt(`0{"pid":"x","offset":7}`)},
+		{"connect/auth-pid-number", txt(`0{"pid":7,"offset":"o"}`)},
+		{"connect/auth-pid-null", txt(`0{"pid":null,"offset":"o"}`)},
+		{"connect/auth-pid-object-offset-array", txt(`0{"pid":{"a":1},"offset":[1]}`)},
+		{"connect/auth-offset-without-pid", txt(`0{"offset":"o"}`)},
+		{"connect/auth-empty-pid-and-offset", txt(`0{"pid":"","offset":""}`)},
+		{"connect/auth-array", txt(`0[]`)},
+		{"connect/auth-array-of-numbers", txt(`0[1,2]`)},
+		{"connect/auth-string", txt(`0"pid"`)},
+		{"connect/auth-number", txt(`07`)},
+		{"connect/auth-true", txt(`0true`)},
+		{"connect/auth-empty-object", txt(`0{}`)},
+		{"connect/auth-truncated", txt(`0{"pid":"x"`)},
+		{"connect/auth-duplicate-keys", txt(`0{"pid":"x","pid":7,"offset":"a","offset":null}`)},
 		{"disconnect/null-payload", txt("1null")},
 		{"connect-error/null-payload", txt("4null")},
 		{"disconnect/plain", txt("1")},
@@ -191,12 +208,16 @@ type variant struct {
 	// first: the representative is the first thing connection 1 sends (CONNECT with its auth payload is
 	// only decoded for a connection that has not joined the namespace yet).
 	first bool
+	// recovery: the server has connection state recovery enabled (CONNECT reads pid / offset from the auth payload)
+	recovery bool
 }
 
 func (v variant) name() string {
 	switch {
 	case v.ackFam >= 0:
 		return "process/ack-for-" + families[v.ackFam].name + "-callback/" + v.rp.Name
+	case v.first && v.recovery:
+		return "process/as-first-packet-of-a-server-with-recovery/" + v.rp.Name
 	case v.first:
 		return "process/as-first-packet/" + v.rp.Name
 	}
@@ -329,7 +350,11 @@ func processScenario(v variant, bound int) *vx.Scenario {
 	names := repEventNames()
 	sc := &vx.Scenario{Name: v.name(), Bound: bound, Horizon: 2 * time.Minute, AllowPanic: true}
 	sc.Body = func(e *vsched.Exec) func() vx.Result {
-		srv := sio.NewServer(nil)
+		var scfg *sio.ServerConfig
+		if v.recovery {
+			scfg = &sio.ServerConfig{ServerConnectionStateRecovery: sio.ServerConnectionStateRecovery{Enabled: true}}
+		}
+		srv := sio.NewServer(scfg)
 		var sv vsched.Var
 		nconn, nreg := 0, 0
 		errs := map[int][]string{}
@@ -499,6 +524,7 @@ func variants() []variant {
 		}
 		if strings.HasPrefix(f0, "0") {
 			out = append(out, variant{rp: rp, ackFam: -1, first: true})
+			out = append(out, variant{rp: rp, ackFam: -1, first: true, recovery: true})
 		}
 	}
 	return out
